@@ -92,7 +92,8 @@ def Cp.pushDrv (s : Cp) (m : CpMsg) : Cp := { s with drvOut := s.drvOut ++ [m] }
     driver port only when the `Send` it causes succeeds: a flush without caches whose answer does not
     fit into ToDriver (`err != nil` → `return false`, nothing changed: no cache was asked) and a copy
     while ToDMA is full (`!m.ToDMA.CanSend()`, before the clone is made) leave the state as it is and
-    report no progress. -/
+    report no progress. (Since round R4 `processFlushReq` also waits while `shootDownInProcess`; this model has
+    no TLB shootdown — the flag is constantly false here, the overlap is C19's `CP.Cp.hFlush` / `hCtrl`.) -/
 def Cp.handle (s : Cp) : Cp × Bool :=
   if s.fault.isSome then (s, false) else
   match s.drvIn with
